@@ -135,7 +135,8 @@ def run_op(p, e, op, stash=None, meta=True, shared=None):
                     tok = next(it)
                 except StopIteration:
                     break
-                trace.append([canon(tok), sorted(ip.accepts()), sorted(k for k in ip.choices().keys())])
+                # choices() is a dict: the ORDER of its keys is something a caller sees (an on_error handler that takes the first offer)
+                trace.append([canon(tok), sorted(ip.accepts()), list(ip.choices().keys())])
             fin = op[4]
             if fin == 'resume':
                 del it
